@@ -368,6 +368,9 @@ impl<T: CloseValue> Drop for SlotGuard<T> {
         if let SlotI::Writable { value, tx } = std::mem::replace(&mut self.slot, SlotI::Dropped) {
             // send the value back to the parent
             let _ = tx.send(value.close());
+            // (the fields, including a `Wait` flush guard, are only dropped after this body)
+            #[cfg(metrique_verif)]
+            metrique_writer_core::verif_hooks::point("slot.guard_drop.after_send");
         } else {
             unreachable!("move out of slot must only occur during drop")
         }
